@@ -50,12 +50,9 @@ IPow2x(n) == IF n <= 0 THEN 1 ELSE 2 * IPow2x(n - 1)
 RECURSIVE IBitAnd(_, _)
 IBitAnd(a, b) == IF a = 0 \/ b = 0 THEN 0 ELSE 2 * IBitAnd(a \div 2, b \div 2) + (IF a % 2 = 1 /\ b % 2 = 1 THEN 1 ELSE 0)
 
-\* what rustc evaluates for the token sequence `<bound tokens> + 1` / `<bound tokens> - 1`
-\* (`+`/`-` bind tighter than `<<` and `&`)
-Spliced(r, d) ==
-  CASE r.sp = "shl"  -> r.p[1] * IPow2x(r.p[2] + d)          \* a << n + 1  ==  a << (n + 1)
-    [] r.sp = "and"  -> IBitAnd(r.p[1], r.p[2] + d)          \* a & m - 1   ==  a & (m - 1)
-    [] OTHER         -> r.b + d
+\* `(<bound tokens>) + 1` / `(<bound tokens>) - 1`: the bound expression is parenthesised before the
+\* adjustment is spliced (fix 2f72c78; before it `a << n + 1` evaluated to `a << (n + 1)`)
+Spliced(r, d) == r.b + d
 
 \* the closed range handed to int_in_range (guard_to_boundary: later validators overwrite earlier ones)
 RECURSIVE OpBoundary(_, _, _, _)
